@@ -3,6 +3,7 @@
 //! 256-bit dividends; the oracle is a certificate checked by multiplication.
 
 use crate::alpha;
+use crate::with_int;
 use crate::big::{I512, U512};
 use crate::pairs;
 use crate::runner::*;
@@ -181,8 +182,32 @@ fn op_div_case(a: i128, p: u8, b: i128, q: u8, mode: RoundingMode, l: &mut Local
     chk("Decimal.checked_div(Decimal)", &exp, out_checked(|| x.checked_div(y)), Out::None);
     for n in [0u8, 9, 18] {
         let (e2, inf2) = model::div_rounded(a, p, b, q, n, mode);
-        if matches!(inf2, Some((DivPath::WideShift, _))) { chk("Decimal.div_rounded(Decimal)", &e2, out_op(|| x.div_rounded(y, n)), Out::Panic); }
+        if matches!(inf2, Some((DivPath::WideShift, _))) {
+            chk("Decimal.div_rounded(Decimal)", &e2, out_op(|| x.div_rounded(y, n)), Out::Panic);
+            // the integer-operand forms of the same division (smallest fitting type and i128)
+            if q == 0 { for t in int_types_for(b) { with_int!(t, b, i => { chk("Decimal.div_rounded(int)", &e2, out_op(|| x.div_rounded(i, n)), Out::Panic); }); } }
+            if p == 0 { for t in int_types_for(a) { with_int!(t, a, i => { chk("int.div_rounded(Decimal)", &e2, out_op(|| i.div_rounded(y, n)), Out::Panic); }); } }
+        }
     }
+    if q == 0 { for t in int_types_for(b) { with_int!(t, b, i => {
+        chk("Decimal/int", &exp, out_op(|| x / i), Out::Panic);
+        chk("Decimal/=int", &exp, out_op(|| { let mut z = x; z /= i; z }), Out::Panic);
+        chk("Decimal.checked_div(int)", &exp, out_checked(|| CheckedDiv::checked_div(x, i)), Out::None);
+    }); } }
+    if p == 0 { for t in int_types_for(a) { with_int!(t, a, i => {
+        chk("int/Decimal", &exp, out_op(|| i / y), Out::Panic);
+        chk("int.checked_div(Decimal)", &exp, out_checked(|| CheckedDiv::checked_div(i, y)), Out::None);
+    }); } }
+    chk("Decimal/=Decimal", &exp, out_op(|| { let mut z = x; z /= y; z }), Out::Panic);
+    chk("&Decimal/&Decimal", &exp, out_op(|| &x / &y), Out::Panic);
+}
+
+/// The integer types used for a value in the operator stage: the narrowest type that holds it, and i128.
+fn int_types_for(v: i128) -> Vec<usize> {
+    let mut out = Vec::new();
+    for t in 0..9usize { let (lo, hi) = alpha::int_range(t); if v >= lo && v <= hi { out.push(t); break; } }
+    if out.last() != Some(&8) { out.push(8); }
+    out
 }
 
 pub fn replay(w: &Value) -> Vec<(String, String)> {
@@ -331,6 +356,9 @@ pub fn run(tier: Tier) -> i32 {
     let mults: Vec<i128> = vec![3, 7, 11, 101, (1 << 61) - 1, (1 << 64) + 13, 123456789012345678901234567, (1i128 << 100) + 277, (1i128 << 120) + 451, 2, 5, 1 << 40, 5i128.pow(20), alpha::pow10(18), 1 << 126, M / 3, M];
     let opdivs: Vec<i128> = { let mut v = vec![2i128, 3, 7, 10, 1 << 32, (1 << 64) - 1, 1 << 64, (1 << 64) + 1, (1i128 << 96) + 1, 1 << 126, M / 3, M - 1, M, 999_999_999_999_999_999, alpha::pow10(19), 3 * alpha::pow10(20)];
         let shape: u128 = (1u128 << 127) | ((1u128 << 64) - 1); for sh in [1u32, 2, 17, 33, 62, 63] { v.push((shape >> sh) as i128); } v };
+    // quotient targets of the operator stage: the list is sorted, so take BOTH ends (small quotients and the
+    // ones next to 10^37, 10^38 and 2^127-1, where a 39-digit result still fits) and a spread of the middle
+    let opqs: Vec<i128> = if deep { qs.clone() } else { let n = qs.len(); qs.iter().enumerate().filter(|(i, _)| *i < 24 || *i + 30 >= n || i % 9 == 0).map(|(_, q)| *q).collect() };
     let frame = alpha::scale_frame();
     let mut opitems: Vec<(u8, i128, u8, u8)> = Vec::new();
     for &b in &mults { for sb in [1i128, -1] { for &(p, q) in &frame { if p as u32 + q as u32 > 18 { opitems.push((0, sb * b, p, q)); } } } }
@@ -338,8 +366,8 @@ pub fn run(tier: Tier) -> i32 {
     for mode in ALL_MODES {
         run.par_for(&opitems, || RoundingMode::set_default(mode), |&(kind, b, p, q), l| {
             let mut xs = Vec::new();
-            if kind == 0 { pairs::frontier_mul_round(b, p as u32 + q as u32 - 18, &qs[..qs.len().min(if deep { 200 } else { 60 })], &mut xs); }
-            else { pairs::frontier_div_round(b, (18 + q - p) as u32, 0, &qs[..qs.len().min(if deep { 200 } else { 60 })], &mut xs); }
+            if kind == 0 { pairs::frontier_mul_round(b, p as u32 + q as u32 - 18, &opqs, &mut xs); }
+            else { pairs::frontier_div_round(b, (18 + q - p) as u32, 0, &opqs, &mut xs); }
             xs.retain(|x| *x != i128::MIN && *x != 0);
             xs.sort(); xs.dedup();
             for a in xs { if kind == 0 { op_mul_case(a, p, b, q, mode, l); } else { op_div_case(a, p, b, q, mode, l); } }
